@@ -31,7 +31,7 @@ pub static DEF: PropDef = PropDef {
 		"the fault-free twin (same supply mode and read schedule, never-failing consumer) defines the expected bytes; value correctness of that twin is not checked here",
 		"transient EINTR faults are outside the property's stated quantifier and are judged by the weak oracle only (Err, or Ok with exactly the fault-free output)",
 	],
-	expected_probes: &["r.fail.fired", "w.fail.fired", "w.short", "fault_inside_detection", "fault_after_output", "fault_not_reached", "r.eintr.fired", "w.eintr.fired", "flush.failed"],
+	expected_probes: &["r.fail.fired", "w.fail.fired", "w.short", "fault_inside_detection", "fault_after_output", "fault_not_reached", "r.eintr.fired", "w.eintr.fired", "flush.failed", "history.fired"],
 	needs_bins: false,
 	watchdog_s: 30,
 };
@@ -43,7 +43,7 @@ fn runs(t: Tier) -> u64 {
 	}
 }
 
-const FAMILIES: &[&str] = &["rfail", "rfail", "rfail", "wfail", "wfail", "wfail", "wshort", "flushfail", "reintr", "weintr"];
+const FAMILIES: &[&str] = &["rfail", "rfail", "rfail", "wfail", "wfail", "wfail", "wshort", "flushfail", "reintr", "weintr", "history", "history"];
 
 fn gen(seed: u64, idx: u64, _t: Tier) -> J {
 	let mut r = Rng::derive(seed, "C12", idx);
@@ -68,9 +68,40 @@ fn gen(seed: u64, idx: u64, _t: Tier) -> J {
 	// Single-byte schedules over tens of KiB cost more than they tell.
 	let sched = if stream.bytes.len() > 8000 && sched.cycle && sched.list.iter().all(|n| *n < 16) { Sched::bytes(r.range(200, 3000) as u32) } else { sched };
 	let family = *r.pick(FAMILIES);
+	let mut set_param_idx = 0usize;
 	let mut call = Call::reader(stream.bytes.clone(), from, sched);
 	call.reader = reader || family == "rfail" || family == "reintr";
-	let mut sc = Scenario::new(to, vec![call]);
+	let mut calls = vec![call];
+	let mut to = to;
+	if family == "history" {
+		// A caller history: healthy call(s) around one call whose producer fails.
+		if to == crate::scenario::Fmt::Toml {
+			to = crate::scenario::Fmt::Json;
+		}
+		calls[0].reader = true;
+		let before = r.range(0, 2);
+		let after = r.range(0, 2);
+		let mut all = vec![];
+		for _ in 0..before {
+			let (f2, s2) = corpus_stream(&mut r, 3);
+			let rd = r.chance(1, 2);
+			let mut c = Call::reader(s2.bytes, Some(f2), if rd { gen::gen_sched(&mut r, 64) } else { Sched::whole() });
+			c.reader = rd;
+			all.push(c);
+		}
+		set_param_idx = all.len();
+		all.push(calls.remove(0));
+		for _ in 0..after {
+			let (f2, s2) = corpus_stream(&mut r, 3);
+			let rd = r.chance(1, 2);
+			let mut c = Call::reader(s2.bytes, Some(f2), if rd { gen::gen_sched(&mut r, 64) } else { Sched::whole() });
+			c.reader = rd;
+			all.push(c);
+		}
+		calls = all;
+	}
+	let mut sc = Scenario::new(to, calls);
+	set_param(&mut sc, "faulty_call", json!(set_param_idx));
 	set_param(&mut sc, "family", json!(family));
 	set_param(&mut sc, "rkind", json!(RKINDS[r.usize_below(RKINDS.len())].0));
 	set_param(&mut sc, "wkind", json!(*r.pick(&["other", "other", "zero", "brokenpipe"])));
@@ -260,6 +291,62 @@ fn eval(case: &J) -> Eval {
 				}
 			} else if !is_prefix(&o.out, &base.out) {
 				ev.violate(format!("flushfail/not-prefix/{tag}"), "translation failed on a failing flush and its output is not a prefix of the fault-free output".to_string());
+			}
+		}
+		"history" => {
+			// Producer fault in call `fc` of a history; the calls before it are healthy and
+			// the calls after it get healthy producers again.
+			let fc = sc.param_i("faulty_call").unwrap_or(0) as usize;
+			if fc >= sc.calls.len() || !base.calls.iter().all(|c| matches!(c.verdict, Some(Verdict::Ok))) {
+				return ev;
+			}
+			let kind = sc.param_s("rkind").unwrap_or("Other").to_owned();
+			let (pre_end, fc_end) = (base.calls[fc].out_before as usize, base.calls[fc].out_after as usize);
+			let n = sc.calls[fc].bytes.len();
+			let ks = pinned.map_or_else(|| positions(n), |k| vec![k]);
+			for k in ks {
+				let mut s = sc.clone();
+				s.calls[fc].rfault = Some(RFault { at: k, kind: kind.clone() });
+				let o = exec::run(&s);
+				check_common(&mut ev, &s, &o, &format!("history: producer of call {fc} fails ({kind}) from offset {k}"));
+				if o.calls[fc].rfault_fired == 0 {
+					ev.count("fault_not_reached", 1);
+					if o.out != base.out {
+						ev.violate(format!("history/unreached-differs/{}", sc.to.name()), format!("k={k}: the fault in call {fc} was never reached but the history's output differs from the fault-free one"));
+					}
+					continue;
+				}
+				fired_interesting = true;
+				ev.count("history.fired", 1);
+				for (i, c) in o.calls.iter().enumerate() {
+					let v = c.verdict.as_ref().unwrap();
+					if i == fc {
+						match v {
+							Verdict::Ok => ev.violate(format!("history/ok/{}", sc.to.name()), format!("k={k}: call {fc}'s producer failed at offset {k}, yet the call returned Ok")),
+							Verdict::Err(t) => {
+								if !t.contains(&rtoken(k)) {
+									ev.violate(format!("history/text-lost/{}", sc.to.name()), format!("k={k}: producer error text '{}' is not in the message of call {fc}: {t:?}", rtoken(k)));
+								}
+							}
+							Verdict::Panic(_) => {}
+						}
+					} else if !v.is_ok() && v.code() != 2 {
+						ev.violate(format!("history/healthy-call-failed/{}/{}", sc.to.name(), if i < fc { "before" } else { "after" }), format!("k={k}: call {i} has a healthy producer and succeeds in the fault-free history, but failed here: {}", v.text()));
+					}
+				}
+				// Output: [calls before] ++ prefix of [faulty call's output] ++ [calls after].
+				let pre = &base.out[..pre_end];
+				let post = &base.out[fc_end..];
+				if !is_prefix(pre, &o.out) {
+					ev.violate(format!("history/earlier-output-damaged/{}", sc.to.name()), format!("k={k}: the output of the calls before the faulty one is not intact: {:?} vs {:?}", show(&o.out), show(pre)));
+				} else if o.out.len() < pre.len() + post.len() || &o.out[o.out.len() - post.len()..] != post {
+					ev.violate(format!("history/later-output-damaged/{}", sc.to.name()), format!("k={k}: the calls after the faulty one did not append their fault-free output"));
+				} else {
+					let mid = &o.out[pre.len()..o.out.len() - post.len()];
+					if docs_in_order(sc.to, mid, &base.out[pre_end..fc_end]).is_err() {
+						ev.violate(format!("history/partial-wrong/{}", sc.to.name()), format!("k={k}: what call {fc} emitted before failing ({:?}) is not made of documents of its fault-free output ({:?})", show(mid), show(&base.out[pre_end..fc_end])));
+					}
+				}
 			}
 		}
 		"reintr" | "weintr" => {
